@@ -98,7 +98,7 @@ def run(chk):
         vline = c10.model_lines(g["sc"], g["inp"], [g["faults"][j]], B, variant, verbose=True)
         vout = common.run_lines(runner, [vline])[0]
         chk.violation({"kind": "correspondence-broken", "correspondence": "corr:C11:replace-input",
-                       "differing_cases": len(diffs[variant]), "check_vector_assumed": "repaired" if variant else "pinned",
+                       "differing_cases": len(diffs[variant]), "check_vector_assumed": c10.vec_name(variant),
                        "first_case": {"argv": g["impl"][j][7], "input": g["input"], "fault": g["faults"][j]},
                        "implementation": g["impl"][j][0], "model": cmpo,
                        "implementation_calls": " ".join(g["impl"][j][1])[-1200:], "model_calls": vout.split("|")[-1].replace("_", " ")[-1200:]},
@@ -112,7 +112,7 @@ def run(chk):
     chk.count("replace-input-histories", total, nontriv, samples)
     chk.cov["parts"]["replace-input-histories"]["distribution"] = dist
     chk.cov["parts"]["replace-input-histories"]["operations_per_input"] = {g["input"]: g["sc"].nops for g in groups if "sc" in g}
-    chk.cov["check_vector_observed"] = "repaired (proposed_fixes/D2_output_errors.diff)" if variant else "pinned (fflush/fclose not looked at)"
+    chk.cov["check_vector_observed"] = c10.vec_name(variant)
     chk.cov["rule"] = ("qpdf --replace-input on inputs without and with warnings; for every file operation k of the run (quick: every non-write operation, its "
                        "neighbours and a sample of the writes): the operation fails (full@k, fail@k), the process is killed before it (killb@k) and after it "
                        "(killa@k); plus a disk that stays full from k on and RLIMIT_FSIZE sweeps; after each run the directory is classified and compared with the "
